@@ -95,6 +95,7 @@ type specEnv struct {
 	head *State // state at the head of the innermost loop iteration (for atHead())
 	finalFr *frame // frame of the function under verification, for final(param) in postconditions
 	finalSt *State // exit state
+	ctx     *ssa.BasicBlock // program point the clause is evaluated at (loop header / block of a call); nil: function exit
 }
 
 func (u *Unit) newSpecEnv(bc *BoundContract, st, old *State, args []Val, results []Val) *specEnv {
@@ -292,7 +293,7 @@ func (env *specEnv) ident(x *ast.Ident) Val {
 		if env.fr != nil && !env.inOld {
 			for _, pv := range env.bc.Params {
 				if pv == o {
-					if a := env.fr.findLocal(pv.Name(), pv.Type()); a != nil {
+					if a := env.fr.findLocalAt(pv.Name(), pv.Type(), env.ctx); a != nil {
 						if env.fr.isReg[a] {
 							if v, ok := env.st.cells[a]; ok {
 								return v
@@ -320,7 +321,7 @@ func (env *specEnv) ident(x *ast.Ident) Val {
 			if env.fr == nil {
 				panic("local " + name + " used outside the function body")
 			}
-			a := env.fr.findLocal(name, o.Type())
+			a := env.fr.findLocalAt(name, o.Type(), env.ctx)
 			if a == nil {
 				panic(StaleContract{fmt.Sprintf("%s: local %q not found in %s", env.bc.FC.Key(), name, env.fr.fn)})
 			}
@@ -355,17 +356,38 @@ type StaleContract struct{ Msg string }
 
 func (s StaleContract) Error() string { return "stale contract: " + s.Msg }
 
-func (fr *frame) findLocal(name string, t types.Type) *ssa.Alloc {
+// findLocal resolves a source-level local name to its Alloc. Several locals may share a name (every range loop has
+// a "rangeindex", shadowed variables): at a program point ctx the one meant is the declaration that dominates ctx and
+// is closest to it (innermost scope); without a program point, the last live one in block order.
+func (fr *frame) findLocal(name string, t types.Type) *ssa.Alloc { return fr.findLocalAt(name, t, nil) }
+
+func (fr *frame) findLocalAt(name string, t types.Type, ctx *ssa.BasicBlock) *ssa.Alloc {
 	var found *ssa.Alloc
+	var cands []*ssa.Alloc
 	for _, b := range fr.fn.Blocks {
 		for _, in := range b.Instrs {
 			if a, ok := in.(*ssa.Alloc); ok && a.Comment == name {
 				if types.Identical(a.Type().(*types.Pointer).Elem(), t) {
+					cands = append(cands, a)
 					if _, live := fr.vals[a]; live || found == nil {
 						found = a
 					}
 				}
 			}
+		}
+	}
+	if ctx != nil && len(cands) > 1 {
+		var best *ssa.Alloc
+		for _, a := range cands {
+			if !a.Block().Dominates(ctx) {
+				continue
+			}
+			if best == nil || best.Block().Dominates(a.Block()) {
+				best = a // deeper in the dominator tree, or later in the same block
+			}
+		}
+		if best != nil {
+			return best
 		}
 	}
 	return found
@@ -624,7 +646,7 @@ func (env *specEnv) addr(e ast.Expr) (*Term, types.Type) {
 				}
 			}
 			if ok && env.fr != nil {
-				a := env.fr.findLocal(name, v.Type())
+				a := env.fr.findLocalAt(name, v.Type(), env.ctx)
 				if a != nil && !env.fr.isReg[a] {
 					at, ok := env.fr.vals[a].(*Term)
 					if !ok {
@@ -1118,6 +1140,12 @@ func (env *specEnv) ghostField(e ast.Expr) int {
 		panic("ghost field name must be a string constant")
 	}
 	name := constant.StringVal(tv.Value)
+	switch name {
+	case "misc":
+		return fGhostMisc
+	case "held":
+		return fGhostHeld
+	}
 	id, ok := env.u.E.ghostNames[name]
 	if !ok {
 		id = -(100 + len(env.u.E.ghostNames))
